@@ -422,12 +422,17 @@ def count_semantics(v):
             return None
         return sym.A('cle' if side.v == 'right' else 'clt', ref, nd)
 
-    def scan_of(t: Term):
+    def scan_of(t: Term, at=None):
         if t.head not in ('call:' + LOWER_SCAN, 'call:' + HIGHER_SCAN):
             return None
         X, q, fill = t.kw('x'), t.kw('lookup'), t.kw('fill_not_valid')
         ref, ln = arr_ref(X)
-        nd = needle(q)
+        if at is not None and isinstance(q, Num) and q.length is not None:
+            nd = q.at(at).r            # element `at` of the result of an array-valued call: the answer for query `at`
+        elif at is None or at == C(0):
+            nd = needle(q)
+        else:
+            nd = None
         if ref is None or nd is None or not isinstance(fill, Const) or not isinstance(fill.v, bool):
             return None
         if t.head == 'call:' + LOWER_SCAN:
@@ -444,8 +449,8 @@ def count_semantics(v):
         out = None
         if head == 'val' and isinstance(args[0], Ref) and isinstance(args[0].term, Term):
             out = count_of(args[0].term)
-        elif head == 'el' and isinstance(args[0], Ref) and isinstance(args[0].term, Term) and isinstance(args[1], Rat) and args[1] == C(0):
-            out = scan_of(args[0].term)
+        elif head == 'el' and isinstance(args[0], Ref) and isinstance(args[0].term, Term) and isinstance(args[1], Rat):
+            out = scan_of(args[0].term, rat_img(args[1]))
         elif head == 'Int' and isinstance(args[0], Rat):
             inner = rat_img(args[0])
             ia = list(inner.atoms())
@@ -455,10 +460,18 @@ def count_semantics(v):
             elif not (inner == args[0]):
                 out = sym.make_atom('Int', inner)
         if out is None:
-            nargs = tuple(rat_img(x_) if isinstance(x_, Rat) else x_ for x_ in args)
-            out = sym.make_atom(head, *nargs) if any(isinstance(x_, Rat) and not (x_ == y_) for x_, y_ in zip(nargs, args)) else Rat.atom(a)
+            nargs = tuple(rat_img(x_) if isinstance(x_, Rat) else (pred_img(x_) if isinstance(x_, (P, Num)) else x_) for x_ in args)
+            changed = any((isinstance(x_, Rat) and not (x_ == y_)) or (isinstance(x_, (P, Num)) and not veq(x_, y_)) for x_, y_ in zip(nargs, args))
+            out = sym.make_atom(head, *nargs) if changed else Rat.atom(a)
         memo[a] = out
         return out
+
+    def pred_img(q):
+        if isinstance(q, Num):
+            return Num(rat_img(q.r), None if q.length is None else rat_img(q.length), q.kind)
+        if isinstance(q, P):
+            return P(q.op, *[pred_img(x_) if isinstance(x_, (P, Num)) else x_ for x_ in q.args])
+        return q
 
     def rat_img(r: Rat) -> Rat:
         mp = {}
